@@ -966,8 +966,29 @@ func r13_2(c *Ctx) {
 				deferred := false
 				eachInstr(fn, func(x ssa.Instruction) {
 					if d, ok := x.(*ssa.Defer); ok {
-						if callee := d.Call.StaticCallee(); callee != nil && (callee.String() == "(*sync.RWMutex).RUnlock" || callee.String() == "(*sync.RWMutex).Unlock") {
+						isUnlock := func(callee *ssa.Function) bool {
+							return callee != nil && (callee.String() == "(*sync.RWMutex).RUnlock" || callee.String() == "(*sync.RWMutex).Unlock")
+						}
+						if isUnlock(d.Call.StaticCallee()) {
 							deferred = true
+						}
+						// `defer func() { c.mu.RUnlock() }()`: a deferred literal that releases the lock on every path
+						if mc, ok := d.Call.Value.(*ssa.MakeClosure); ok && len(d.Call.Args) == 0 {
+							if lit, ok := mc.Fn.(*ssa.Function); ok && lit.Blocks != nil && len(returnsOf(lit)) > 0 {
+								unlocks := func(in ssa.Instruction) bool {
+									call, isCall := in.(*ssa.Call)
+									return isCall && isUnlock(call.Call.StaticCallee())
+								}
+								all := true
+								for _, r := range returnsOf(lit) {
+									if reachesAvoiding(entryPoint(lit), r, unlocks, nil) {
+										all = false
+									}
+								}
+								if all {
+									deferred = true
+								}
+							}
 						}
 					}
 				})
@@ -1542,3 +1563,45 @@ func r13_6(c *Ctx) {
 }
 
 func expandNameShort(s string) string { return s }
+
+// R20.6: the reconnection code runs on values a server chooses (the retry field reaches the backoff as an
+// interval of any size), so it must not call a library function that panics on a non-positive argument —
+// (*rand.Rand).Int63n, Int31n, Intn, Perm and their package-level twins — unless the argument was found
+// positive on the way there. A float-to-int conversion of a huge interval wraps to a negative number.
+func init() {
+	register(&Rule{ID: "R20.6", Title: "no argument-panicking random-number call on the retry path without a positivity guard", Floor: 1, Run: r20_6})
+}
+
+func r20_6(c *Ctx) {
+	P := c.P
+	panics := map[string]bool{"Int63n": true, "Int31n": true, "Intn": true, "Perm": true, "Int64N": true, "Int32N": true, "IntN": true, "N": true, "UintN": true, "Uint64N": true, "Uint32N": true}
+	n := 0
+	for _, fn := range P.Funcs {
+		if !inSSEPackage(fn) || fn.Blocks == nil {
+			continue
+		}
+		eachInstr(fn, func(in ssa.Instruction) {
+			call, ok := in.(*ssa.Call)
+			if !ok {
+				return
+			}
+			callee := call.Call.StaticCallee()
+			if callee == nil || callee.Pkg == nil || !(callee.Pkg.Pkg.Path() == "math/rand" || callee.Pkg.Pkg.Path() == "math/rand/v2") || !panics[callee.Name()] {
+				return
+			}
+			n++
+			arg := call.Call.Args[len(call.Call.Args)-1]
+			name := fnLabel(fn) + ":" + callee.Name()
+			if k, isK := constInt(arg); isK && k > 0 {
+				c.ok(name, P.ipos(call), "constant positive argument")
+				return
+			}
+			guarded := intGuard(fn, call.Block(), func(v ssa.Value) bool { return v == arg || sameValue(v, arg) }, negInf, 1, posInf)
+			c.check(guarded, name, P.ipos(call), "the argument was found positive before the call",
+				"rand."+callee.Name()+" panics on a non-positive argument, and this one is not tested: it is computed from the current interval, which a server sets through the retry field (a huge value converted from float wraps to a negative number), so Connect panics when such a connection ends")
+		})
+	}
+	if n == 0 {
+		c.ok("client:no-argument-panicking-rand-call", "-", "the package calls no random-number function that panics on its argument")
+	}
+}
